@@ -1,5 +1,5 @@
 (* C01 - Timed-move prediction equals the firmware step-accumulator recurrence.  Statements only. *)
-From Plotink Require Import Base.Prelude Spec.Firmware Model.EbbCalc Proofs.EbbCalcProofs Proofs.EbbClosed Corr.C01.
+From Plotink Require Import Base.Prelude Spec.Firmware Model.EbbCalc Model.EbbCalcRnd Proofs.EbbCalcProofs Proofs.EbbRndProofs Proofs.EbbClosed Corr.C01.
 Open Scope Z_scope.
 
 (* exact model of move_dist_lt = tick-by-tick recurrence, for all integers and every tick count T >= 1,
@@ -25,6 +25,17 @@ Theorem C01_aliases : forall rate accel time acc,
   moveDistLM rate accel time = fst (move_dist_lt rate accel time (Some 0)).
 Proof. exact aliases_agree. Qed.
 
+(* the arithmetic the code really runs: every mpmath operation of move_dist_lt followed by a rounding to 103 bits (dps = 30).
+   For ANY rounding operator that respects == and leaves 103-bit numbers (k / 2^n, |k| < 2^103) unchanged - round to nearest with any
+   tie rule, or directed - the rounded computation is the exact one on (a superset of) the firmware-valid domain; so C01_exact is a
+   statement about what the code computes, whatever the caller's ambient precision was before the call forced dps = 30 *)
+Theorem C01_rounding_exact : forall rnd : Q -> Q,
+  (forall x y, (x == y)%Q -> (rnd x == rnd y)%Q) -> (forall x, rep103 x -> (rnd x == x)%Q) ->
+  forall rate accel time accum, Z.abs rate <= 2 ^ 33 -> Z.abs accel <= 2 ^ 32 -> 0 <= time <= 2 ^ 32 ->
+  match accum with Some c => 0 <= c < 2 ^ 31 | None => True end ->
+  move_dist_lt_r rnd rate accel time accum = move_dist_lt rate accel time accum.
+Proof. exact move_dist_lt_rounding_exact. Qed.
+
 (* non-vacuity: odd negative acceleration, zero first-tick rate (backward second tick), cleared accumulator *)
 Example C01_example : move_dist_lt (-2) (-3) 5 None = lt_spec (-2) (-3) 5 None /\ lt_spec (-2) (-3) 5 None = (0, 2147483597)
   /\ lt_spec 1 (-1) 2 None = (0, 2147483646) /\ lt_spec (-5) (-3) 5 (Some 10) = (-1, 2147483593).
@@ -35,3 +46,4 @@ Print Assumptions C01_remainder_in_range.
 Print Assumptions C01_closed_form.
 Print Assumptions C01_checker_is_spec.
 Print Assumptions C01_aliases.
+Print Assumptions C01_rounding_exact.
